@@ -652,7 +652,7 @@ func c05TreeGen(tier Tier) TreeGen {
 		Kinds: stackKinds,
 		Leaf:  genC05Leaf,
 		Conds: true, CondExprStack: true, NotAsCondExpr: true,
-		Caps: true, EmptyStacks: true, IndexOpts: true, FIFOOpt: true, RejectValidity: true, DeepChains: true, Ambient: true, WideRuns: true, NoNestAfter: true, ReadOnlyNodes: true,
+		Caps: true, EmptyStacks: true, IndexOpts: true, FIFOOpt: true, RejectValidity: true, DeepChains: true, Ambient: true, Pasts: true, WideRuns: true, NoNestAfter: true, ReadOnlyNodes: true,
 		Options: true, // symbols, delimiters, fold ...: presentation settings must never mask a real difference
 	}
 	if tier.Thorough {
